@@ -135,6 +135,58 @@ claim("C20",
       "TLA+ pipeline state machine checked exhaustively by TLC, TLC-enumerated requests sent to the real Flask app, TLC trace validation bit for bit",
       "DESIGN.md section 4 C20")
 
+claim("C19",
+      "Survey.tla: a traverse state machine on the Pythagorean lattice (directions = triples, distances multiples of r, so every "
+      "expected point is an exact integer) with one action per public call (Radiate, JoinBack, Polar, Rect, Reduce, Params, "
+      "Correct), 8 invariants checked exhaustively by TLC with every action taken, and the complete validity table of the "
+      "first-velocity correction (3456 + 8 cells: must return / must raise / free) beside the as-built truthiness table. TLC-generated "
+      "traverses, every cell and strata samples are replayed on geodepy.survey / convert; Trace_Survey (TLC) decides every clause "
+      "with exact rational expectations or its own fixed-point sine/cosine: joins/radiations closure 1e-9 x distance, bearing in "
+      "[0, 360), rotation and scale, Pythagoras and heights-shift-only-dh of va_conv, correction defined for every valid "
+      "atmosphere, proportionality, CO2 form identity, 1 ppm agreement at 420 ppm for 0.5-1.0 um, dispersion identity.",
+      "Not decided: the empirical refractivity / Rueger constants themselves (only the cross-relations); sign of dh for face-right "
+      "zenith angles; cells where the property is silent are free. Trusted: TLC, BigFix, alpha's exact encodings.",
+      "TLA+ state machine + validity tables checked exhaustively by TLC, TLC-generated behaviours/cells replayed into the code, TLC trace validation with exact lattice oracle",
+      "DESIGN.md section 4 C19")
+GRID_NOTE = ("Trusted: TLC, BigFix; alpha's exact decimal encoding and the rounding-envelope auxiliaries (cos lat, nu of outputs). "
+             "Positions are seeded samples inside every TLC-enumerated stratum (1965 strata); the zone lattice is complete.")
+claim("C01",
+      "Grid.tla states the discrete rules of the Transverse Mercator grid (zone systems, central meridians incl. ISG codes, "
+      "hemisphere, false origin, convergence sign) and the relational laws of the exact projection; MC_Grid (TLC) proves the "
+      "automatic-zone rule on the complete 0.01-degree longitude lattice for every zone system in integer arithmetic and enumerates "
+      "the strata (hemisphere x side x |dlon| band to 30 deg x latitude band to the limits x zone class x ellipsoid x projection). "
+      "Trace_Grid (TLC) decides on real geo2grid calls: zone rule (automatic and explicit), hemisphere label, false northing sign, "
+      "E = false easting on the central meridian, N = 0 on the equator, mirror symmetry in the central meridian and the equator "
+      "(0.4 mm), offsets scale with k0 and are independent of fe/fn, offsets scale with the semi-major axis at fixed 1/f, "
+      "angle-object / explicit-natural-zone / Projection-clone arguments give bit-identical results.",
+      "NOT decided: the 0.2 mm exactness off the central meridian and the absolute scale along it (needs the exact TM / meridian "
+      "arc: planned through MeridianArc.tla); the laws above are necessary conditions; a defect that keeps the map symmetric, "
+      "homogeneous and consistent with the inverse is invisible here. " + GRID_NOTE,
+      "TLA+ specification of zone/hemisphere rules model-checked exhaustively by TLC, TLC-enumerated strata sampled on the real code, TLC trace validation of relational laws",
+      "DESIGN.md section 4 C01")
+claim("C02",
+      "On Grid.tla: Trace_Grid (TLC) decides, on real calls, geo -> grid -> geo closure (2e-9 deg; longitude also with the explicit "
+      "envelope of the documented 0.1 mm output rounding) for samples in every stratum, grid -> geo -> grid closure (0.2 mm, explicit "
+      "zone) on a grid lattice (zones 1,2,30,31,59,60 + ten ISG zones x both hemispheres x eastings to +-3.3e6 m x northings 0..1e7), "
+      "rejection by the forward conversion of lattice points whose latitude/longitude leave the domain, mirrored-hemisphere "
+      "coordinates give opposite latitudes and identical longitudes (exact), and the stand-alone mga2gda converter agrees with the "
+      "library within 1e-10 deg on southern UTM input.",
+      "Entirely relational, so fully decided up to sampling. Known finding: the literal 2e-9 deg longitude closure fails above ~70 deg "
+      "latitude purely from the 4-decimal rounding of E/N (within the rounding envelope); anything beyond the envelope is a "
+      "VIOLATION. " + GRID_NOTE,
+      "TLA+ specification, TLC-enumerated strata and grid lattice exercised on the real code, TLC trace validation of closure laws in exact fixed-point arithmetic",
+      "DESIGN.md section 4 C02")
+claim("C10",
+      "On Grid.tla: Trace_Grid (TLC) decides, on real geo2grid / grid2geo calls in every stratum (all four quadrants, both axes, "
+      "|dlon| to 30 deg, utm / isg / random projections, shipped and random ellipsoids): point scale factor = k0 of the REQUESTED "
+      "projection on the central meridian (8 decimals), convergence = 0 on both axes, sign table (grid bearing = azimuth + "
+      "convergence), forward and inverse report the same two values (2e-8; 1e-9 deg + rounding envelope), parity under both mirrors, "
+      "psf/k0 and convergence independent of fe/fn/k0, psf independent of the size of the ellipsoid.",
+      "NOT decided: 2e-8 / 1e-9 deg against the exact projection OFF the axes (finite differences are limited by the 0.1 mm output "
+      "rounding); there the laws are necessary conditions. " + GRID_NOTE,
+      "TLA+ specification, TLC-enumerated strata exercised on the real code, TLC trace validation of axis values, sign table and relational laws",
+      "DESIGN.md section 4 C10")
+
 NOT_YET = "check not built yet in this session (work in progress; see DESIGN.md section 8 for build order)"
 
 
